@@ -8,10 +8,11 @@ from __future__ import annotations
 import fnmatch
 import re
 
-from .compare import Bag, BagKnownExtras, SetOf, Merge, PrefixThenSet, OneOf, Any
+from .compare import Bag, BagKnownExtras, SetOf, Merge, PrefixThenSet, OneOf, Any, Ambiguous
 
 F_RESIDUE = 'C05-form-annotations-survive-extension-removal'
 F_SCOPE = 'C04-form-annotations-ignore-scope'
+F_NAV = 'C10-navigation-by-id-ambiguous'
 
 WS = re.compile(r'[ \t\n\r]+')
 
@@ -256,6 +257,76 @@ class Model:
                     chosen.append(m)
         return chosen
 
+    def scope(self, lexicon=None, lang=None):
+        """(selected specs, default_mode) of Wordnet(lexicon, lang=lang)."""
+        default = not lexicon and not lang
+        return self.select(lexicon or '*', lang), default
+
+    def expand_set(self, S, default, expand):
+        """(expand specs, missing dependency specs) per the documented rule."""
+        if expand is None:
+            if default:
+                return list(self.installed), []
+            E, missing = [], []
+            for sp in S:
+                for d in self.docs[sp].get('requires', []):
+                    ds = spec_of(d)
+                    if ds in self.installed:
+                        if ds not in E:
+                            E.append(ds)
+                    elif ds not in missing:
+                        missing.append(ds)
+            return E, missing
+        if expand == '':
+            return [], []
+        return self.select(expand), []
+
+    # -- ILI helpers ------------------------------------------------------------------------
+    def synsets_with_ili(self, ili, specs):
+        out = []
+        for sp in specs:
+            if sp not in self.installed:
+                continue
+            for ss in self.idx[sp].local_synsets():
+                if ss.get('ili') == ili:
+                    out.append(K(sp, ss['id']))
+        return out
+
+    def ili_of(self, key):
+        sp, id_ = key.split('|', 1)
+        ss = self.idx[sp].synset[id_]
+        i = ss.get('ili')
+        return i if i and i != 'in' else None
+
+    def expanded_relations(self, key, lexscope, E, types=None):
+        """Relations borrowed through the expand lexicons E for synset *key* whose own
+        scope is *lexscope*: list of {'name','source','target_id','lexicon','target'} where
+        target is a synset key of lexscope or {'inferred': ili}."""
+        ili = self.ili_of(key)
+        if ili is None or not E:
+            return []
+        out = []
+        for y in self.synsets_with_ili(ili, E):
+            if y == key:
+                continue
+            for k, s_, t, typ, d, meta in self._declared(E):
+                if k != 'ss' or s_ != y or t.split('|', 1)[0] not in E:
+                    continue
+                if types and typ not in types:
+                    continue
+                tili = self.ili_of(t)
+                if tili is None:
+                    continue
+                local = self.synsets_with_ili(tili, lexscope)
+                base = {'name': typ, 'source': y.split('|', 1)[1],
+                        'target_id': t.split('|', 1)[1], 'lexicon': d, 'meta': meta}
+                if local:
+                    for lk in local:
+                        out.append(dict(base, target=lk))
+                else:
+                    out.append(dict(base, target={'inferred': tili}))
+        return out
+
     # -- dependency links -----------------------------------------------------------------
     def requires(self, sp):
         return {spec_of(d): (spec_of(d) in self.installed)
@@ -359,9 +430,10 @@ class Model:
                     examples += [norm_text(ex['text']) for ex in xsn.get('examples', [])]
                     counts += [[c['value'], meta_of(c)] for c in xsn.get('counts', [])]
                     frames += self.idx[x].frames_of(s['id'])
+                nav = list(self.installed) if default_mode else scope
                 im = {
-                    'word': ix.key_entry(e['id']),
-                    'synset': ix.key_synset(s['synset']),
+                    'word': self._nav(ix.key_entry(e['id']), nav, 'entry'),
+                    'synset': self._nav(ix.key_synset(s['synset']), nav, 'synset'),
                     'examples': Bag(examples), 'counts': Bag(counts), 'frames': Bag(frames),
                     'adjposition': s.get('adjposition'),
                     'lexicalized': s.get('lexicalized', True),
@@ -415,6 +487,23 @@ class Model:
                     im['relations'] = self.synset_relations(K(sp, ss['id']), sc)
                 img['synsets'][K(sp, ss['id'])] = im
         return img
+
+    def _nav(self, key, nav_scope, kind):
+        """Expected result of Sense.word()/synset(): the declared entity when it is in the
+        navigation scope (nothing is promised otherwise)."""
+        owner, id_ = key.split('|', 1)
+        if owner not in nav_scope:
+            return Any()
+        others = []
+        for sp2 in nav_scope:
+            if sp2 == owner or sp2 not in self.installed:
+                continue
+            el = (self.idx[sp2].entry if kind == 'entry' else self.idx[sp2].synset).get(id_)
+            if el is not None and not el.get('external'):
+                others.append(K(sp2, id_))
+        if others:
+            return Ambiguous(key, others, F_NAV)
+        return key
 
     # -- relations (C11) ------------------------------------------------------------------
     def _declared(self, scope):
